@@ -44,3 +44,27 @@ package shrinker
 //@   allocates fstxn.FsTxn, alloctxn.AllocTxn, jrnl.Op, []uint64, map[uint64]*inode.Inode, cache.Cslot, inode.Inode, buf.Buf, marshal.Dec, marshal.Enc, cell:uint64, []uint8, addr.Addr
 //@   modifies held, lastst, curop, freshinum, wroteinum, cphase, abits, dirtyinum, muheld, cache.Cslot.Obj, map[uint64]*inode.Inode, inode.Inode.ShrinkSize, []uint64@inode.Inode.blks, []uint64@alloctxn.AllocTxn.freeBnums, alloctxn.AllocTxn.freeBnums, buf.Buf.dirty, []uint8@buf.Buf.Data, shrinkst.nthread, zeroed
 //@   ensures [D5-signalled] quiet() && muheld == old(muheld) @C06
+
+// C14-P3 / C06-D5: construction, shutdown and crash touch the bookkeeping under the mutex only
+// (the waits give the mutex up and retake it: sync.Cond contract), and leave it released.
+//@ spec MkShrinkerSt(st)
+//@   props C14
+//@   requires fsInv(st)
+//@   allocates shrinker.ShrinkerSt, sync.Mutex, sync.Cond
+//@   ensures [P3-built] shrinkInv(result) && fresh(result) && result.nthread == 0 && !result.crash @C14
+
+//@ spec (*ShrinkerSt).Shutdown(shrinker)
+//@   props C14 C06
+//@   requires shrinkInv(shrinker) && !muheld[base(shrinker.mu)]
+//@   modifies muheld, shrinker.ShrinkerSt.nthread, shrinker.ShrinkerSt.crash
+//@   ensures [P3-released] muheld == old(muheld) @C14 @C06
+//@   ensures [D5-drained] shrinker.nthread == 0 @C06
+//@   loop 0 invariant shrinkInv(shrinker) && muheld == store(old(muheld), base(shrinker.mu), true)
+
+//@ spec (*ShrinkerSt).Crash(shrinker)
+//@   props C14 C06
+//@   requires shrinkInv(shrinker) && !muheld[base(shrinker.mu)]
+//@   modifies muheld, shrinker.ShrinkerSt.nthread, shrinker.ShrinkerSt.crash
+//@   ensures [P3-released] muheld == old(muheld) @C14 @C06
+//@   ensures [D5-drained] shrinker.nthread == 0 @C06
+//@   loop 0 invariant shrinkInv(shrinker) && muheld == store(old(muheld), base(shrinker.mu), true)
